@@ -258,6 +258,197 @@ theorem sound (n : Nat) (Hlen : ∀ x, (H x).length = n) (t : Tree)
     · right; exact hc
   · right; exact hc
 
+/-! ## soundness with the collision located (round 3)
+
+`Collision H` is an existential over ALL byte strings; for a concrete hash with a fixed digest size it is provable by
+pigeonhole, which would make a theorem `… ∨ Collision sha256` vacuous. `CollisionIn H S` restricts the colliding pair
+to an explicit finite list `S` — below always "the node preimages of the committed tree and the strings this very query
+hashed". Finding such a pair IS breaking the hash on inputs the attacker had to produce. -/
+
+/-- a collision of `H` between two members of the list `S` -/
+def CollisionIn (S : List Bytes) : Prop := ∃ x ∈ S, ∃ y ∈ S, x ≠ y ∧ H x = H y
+
+theorem CollisionIn.mono {S T : List Bytes} (hsub : ∀ x ∈ S, x ∈ T) (h : CollisionIn H S) : CollisionIn H T := by
+  obtain ⟨x, hx, y, hy, hne, heq⟩ := h
+  exact ⟨x, hsub x hx, y, hsub y hy, hne, heq⟩
+
+theorem CollisionIn.collision {S : List Bytes} (h : CollisionIn H S) : Collision H := by
+  obtain ⟨x, _, y, _, hne, heq⟩ := h
+  exact ⟨x, y, hne, heq⟩
+
+/-- `hash_mem` with the partner located: if `H x` is a node hash, `x` is a node preimage or collides with one -/
+theorem hash_mem_in (t : Tree) (x : Bytes) (h : H x ∈ t.hashes H) :
+    x ∈ t.preimages H ∨ ∃ y ∈ t.preimages H, x ≠ y ∧ H x = H y := by
+  induction t with
+  | leaf m =>
+    simp [Tree.hashes] at h
+    by_cases hx : x = m
+    · left; simp [Tree.preimages, hx]
+    · right; exact ⟨m, by simp [Tree.preimages], hx, h⟩
+  | node l r ihl ihr =>
+    simp only [Tree.hashes, List.mem_cons, List.mem_append] at h
+    rcases h with h | h | h
+    · by_cases hx : x = sortPair (l.root H) (r.root H)
+      · left; simp [Tree.preimages, hx]
+      · right; exact ⟨_, by simp [Tree.preimages], hx, h⟩
+    · rcases ihl h with h' | ⟨y, hy, h'⟩
+      · left; simp [Tree.preimages, h']
+      · right; exact ⟨y, by simp [Tree.preimages, hy], h'⟩
+    · rcases ihr h with h' | ⟨y, hy, h'⟩
+      · left; simp [Tree.preimages, h']
+      · right; exact ⟨y, by simp [Tree.preimages, hy], h'⟩
+
+/-- a node preimage is a listed entry or an inner concatenation -/
+theorem preimage_leaf_or_inner (t : Tree) (x : Bytes) (h : x ∈ t.preimages H) : x ∈ t.leaves ∨ x ∈ t.inner H := by
+  induction t with
+  | leaf m => left; simpa [Tree.preimages, Tree.leaves] using h
+  | node l r ihl ihr =>
+    simp only [Tree.preimages, List.mem_cons, List.mem_append] at h
+    rcases h with h | h | h
+    · right; simp [Tree.inner, h]
+    · rcases ihl h with h | h
+      · left; simp [Tree.leaves, h]
+      · right; simp [Tree.inner, h]
+    · rcases ihr h with h | h
+      · left; simp [Tree.leaves, h]
+      · right; simp [Tree.inner, h]
+
+theorem inner_mem_preimages (t : Tree) (x : Bytes) (h : x ∈ t.inner H) : x ∈ t.preimages H := by
+  induction t with
+  | leaf m => simp [Tree.inner] at h
+  | node l r ihl ihr =>
+    simp only [Tree.inner, List.mem_cons, List.mem_append] at h
+    rcases h with h | h | h
+    · simp [Tree.preimages, h]
+    · simp [Tree.preimages, ihl h]
+    · simp [Tree.preimages, ihr h]
+
+theorem leaf_mem_preimages (t : Tree) (x : Bytes) (h : x ∈ t.leaves) : x ∈ t.preimages H := by
+  induction t with
+  | leaf m => simpa [Tree.leaves, Tree.preimages] using h
+  | node l r ihl ihr =>
+    simp only [Tree.leaves, List.mem_append] at h
+    rcases h with h | h
+    · simp [Tree.preimages, ihl h]
+    · simp [Tree.preimages, ihr h]
+
+/-- an inner preimage is the sorted concatenation of two node hashes of the tree -/
+theorem inner_spec (t : Tree) (x : Bytes) (h : x ∈ t.inner H) :
+    ∃ a b, a ∈ t.hashes H ∧ b ∈ t.hashes H ∧ x = sortPair a b := by
+  induction t with
+  | leaf m => simp [Tree.inner] at h
+  | node l r ihl ihr =>
+    simp only [Tree.inner, List.mem_cons, List.mem_append] at h
+    rcases h with h | h | h
+    · exact ⟨l.root H, r.root H, by simp [Tree.hashes, root_mem_hashes], by simp [Tree.hashes, root_mem_hashes], h⟩
+    · obtain ⟨a, b, ha, hb, e⟩ := ihl h
+      exact ⟨a, b, by simp [Tree.hashes, ha], by simp [Tree.hashes, hb], e⟩
+    · obtain ⟨a, b, ha, hb, e⟩ := ihr h
+      exact ⟨a, b, by simp [Tree.hashes, ha], by simp [Tree.hashes, hb], e⟩
+
+theorem inner_length (n : Nat) (Hlen : ∀ x, (H x).length = n) (t : Tree) : ∀ x ∈ t.inner H, x.length = 2 * n := by
+  intro x hx
+  obtain ⟨a, b, ha, hb, rfl⟩ := inner_spec H t x hx
+  rw [sortPair_length, hashes_len H n Hlen t a ha, hashes_len H n Hlen t b hb]; omega
+
+/-- `inner_children` without the side condition on the leaves: a digest-sized `a` whose sorted concatenation with a
+digest-sized `b` is an INNER preimage is a node hash -/
+theorem inner_children_in (t : Tree) (a b : Bytes) (n : Nat)
+    (hlen : ∀ h ∈ t.hashes H, h.length = n) (ha : a.length = n) (hb : b.length = n)
+    (h : sortPair a b ∈ t.inner H) : a ∈ t.hashes H := by
+  induction t with
+  | leaf m => simp [Tree.inner] at h
+  | node l r ihl ihr =>
+    have hl : ∀ h ∈ l.hashes H, h.length = n := fun h hh => hlen h (by simp [Tree.hashes, hh])
+    have hr : ∀ h ∈ r.hashes H, h.length = n := fun h hh => hlen h (by simp [Tree.hashes, hh])
+    have hlr := hl _ (root_mem_hashes H l)
+    have hrr := hr _ (root_mem_hashes H r)
+    simp only [Tree.inner, List.mem_cons, List.mem_append] at h
+    rcases h with h | h | h
+    · have key : a = l.root H ∨ a = r.root H := by
+        unfold sortPair at h
+        split at h <;> split at h
+        · have := List.append_inj h (by omega); left; exact this.1
+        · have := List.append_inj h (by omega); right; exact this.1
+        · have := List.append_inj' h (by omega); right; exact this.2
+        · have := List.append_inj' h (by omega); left; exact this.2
+      rcases key with k | k
+      · simp [Tree.hashes, k, root_mem_hashes]
+      · simp [Tree.hashes, k, root_mem_hashes]
+    · have := ihl hl h
+      simp [Tree.hashes, this]
+    · have := ihr hr h
+      simp [Tree.hashes, this]
+
+theorem foldPreimages_length (n : Nat) (Hlen : ∀ x, (H x).length = n) (ps : List Bytes) (hp : ∀ p ∈ ps, p.length = n)
+    (h0 : Bytes) (h0n : h0.length = n) : ∀ x ∈ foldPreimages H h0 ps, x.length = 2 * n := by
+  induction ps generalizing h0 with
+  | nil => simp [foldPreimages]
+  | cons p ps ih =>
+    intro x hx
+    simp only [foldPreimages, List.mem_cons] at hx
+    rcases hx with rfl | hx
+    · rw [sortPair_length, h0n, hp p (by simp)]; omega
+    · exact ih (fun q hq => hp q (by simp [hq])) _ (Hlen _) x hx
+
+/-- The fold, walked back from the root. Either the start value is a node hash, or one of the strings the fold hashed
+collides with a node preimage, or one of them IS a listed entry (a listed entry of `2n` bytes). -/
+theorem sound_hash_in (n : Nat) (Hlen : ∀ x, (H x).length = n) (t : Tree)
+    (proof : List Bytes) (hp : ∀ p ∈ proof, p.length = n) (h0 : Bytes) (h0n : h0.length = n)
+    (h : foldProof H h0 proof = t.root H) :
+    h0 ∈ t.hashes H
+    ∨ (∃ x ∈ foldPreimages H h0 proof, ∃ y ∈ t.preimages H, x ≠ y ∧ H x = H y)
+    ∨ (∃ x ∈ foldPreimages H h0 proof, x ∈ t.leaves) := by
+  induction proof generalizing h0 with
+  | nil => left; simp [foldProof] at h; rw [h]; exact root_mem_hashes H t
+  | cons p ps ih =>
+    have hpn : p.length = n := hp p (by simp)
+    have h' : foldProof H (H (sortPair h0 p)) ps = t.root H := by simpa [foldProof] using h
+    rcases ih (fun q hq => hp q (by simp [hq])) _ (Hlen _) h' with hm | ⟨x, hx, hc⟩ | ⟨x, hx, hl⟩
+    · rcases hash_mem_in H t _ hm with hpre | ⟨y, hy, hc⟩
+      · rcases preimage_leaf_or_inner H t _ hpre with hl | hi
+        · right; right; exact ⟨_, by simp [foldPreimages], hl⟩
+        · left; exact inner_children_in H t h0 p n (hashes_len H n Hlen t) h0n hpn hi
+      · right; left; exact ⟨_, by simp [foldPreimages], y, hy, hc⟩
+    · right; left; exact ⟨x, by simp [foldPreimages, hx], hc⟩
+    · right; right; exact ⟨x, by simp [foldPreimages, hx], hl⟩
+
+/-- **Soundness of the fold, every escape spelled out.** If the sorted-pair fold from `H m` over digest-sized proof
+elements reaches the root of `t`, then
+1. `m` is a listed entry, or
+2. two DIFFERENT strings among {node preimages of `t`} ∪ {`m` and the strings this fold hashed} have the same hash, or
+3. `m` is itself the preimage of an inner node (the code has no leaf/inner domain separation), or
+4. a LISTED entry is byte-for-byte one of the concatenations the fold hashed (a listed entry of `2n` bytes). -/
+theorem sound_explicit (n : Nat) (Hlen : ∀ x, (H x).length = n) (t : Tree) (m : Bytes)
+    (proof : List Bytes) (hp : ∀ p ∈ proof, p.length = n)
+    (h : foldProof H (H m) proof = t.root H) :
+    m ∈ t.leaves
+    ∨ CollisionIn H (t.preimages H ++ queryPreimages H m proof)
+    ∨ m ∈ t.inner H
+    ∨ (∃ x ∈ foldPreimages H (H m) proof, x ∈ t.leaves) := by
+  rcases sound_hash_in H n Hlen t proof hp (H m) (Hlen m) h with hh | ⟨x, hx, y, hy, hne, heq⟩ | hl
+  · rcases hash_mem_in H t m hh with hpre | ⟨y, hy, hne, heq⟩
+    · rcases preimage_leaf_or_inner H t m hpre with hl | hi
+      · left; exact hl
+      · right; right; left; exact hi
+    · right; left
+      exact ⟨m, by simp [queryPreimages], y, by simp [hy], hne, heq⟩
+  · right; left
+    exact ⟨x, by simp [queryPreimages, hx], y, by simp [hy], hne, heq⟩
+  · right; right; right; exact hl
+
+/-- with the length side conditions (no listed entry and not the queried string has `2n` bytes) only 1 and 2 remain -/
+theorem sound_in (n : Nat) (Hlen : ∀ x, (H x).length = n) (t : Tree)
+    (hleaf : ∀ m ∈ t.leaves, m.length ≠ 2 * n) (m : Bytes) (hm : m.length ≠ 2 * n)
+    (proof : List Bytes) (hp : ∀ p ∈ proof, p.length = n)
+    (h : foldProof H (H m) proof = t.root H) :
+    m ∈ t.leaves ∨ CollisionIn H (t.preimages H ++ queryPreimages H m proof) := by
+  rcases sound_explicit H n Hlen t m proof hp h with h1 | h2 | h3 | ⟨x, hx, hl⟩
+  · left; exact h1
+  · right; exact h2
+  · exact absurd (inner_length H n Hlen t m h3) hm
+  · exact absurd (foldPreimages_length H n Hlen proof hp (H m) (Hlen m) x hx) (hleaf x hl)
+
 /-! ## the layered builder -/
 
 theorem pairUp_length (l : List Bytes) : (pairUp H l).length = (l.length + 1) / 2 := by
@@ -592,5 +783,29 @@ theorem digit_prefix_unique (d d' x x' : List Nat) (hd : ∀ c ∈ d, isDigit c)
       obtain ⟨h1, h2⟩ := h
       have := ih r' (fun c hc => hd c (by simp [hc])) (fun c hc => hd' c (by simp [hc])) h2
       exact ⟨by rw [h1, this.1], this.2⟩
+
+/-- a number below `10^(k+1)` has at most `k+1` decimal digits -/
+theorem decBytes_length_le (k n : Nat) (h : n < 10 ^ (k + 1)) : (decBytes n).length ≤ k + 1 := by
+  induction k generalizing n with
+  | zero =>
+    unfold decBytes
+    have : n < 10 := by simpa using h
+    simp [this]
+  | succ k ih =>
+    unfold decBytes
+    split
+    · simp
+    · have : n / 10 < 10 ^ (k + 1) := by
+        rw [Nat.pow_succ] at h; omega
+      have := ih (n / 10) this
+      simp only [List.length_append, List.length_singleton]; omega
+
+/-- a `u32` prints in at most 10 characters -/
+theorem optDec_length_le (a : Option Nat) (h : ∀ x, a = some x → x < 2 ^ 32) : (optDec a).length ≤ 10 := by
+  cases a with
+  | none => simp [optDec]
+  | some x =>
+    have hx : x < 10 ^ (9 + 1) := Nat.lt_trans (h x rfl) (by decide)
+    exact decBytes_length_le 9 x hx
 
 end LP.Merkle
